@@ -207,8 +207,11 @@ def _two_files_api_impl(i, j, k, rg):
     src = [POOL[i], POOL[j], POOL[k]]
     paths = ['d/one.py', 'd/two.py', 'three.py']
     env = Env(fs=[[paths[n], src[n]] for n in range(3)], dirs=[['d', [('d', [], ['one.py', 'two.py'])]]])
-    args = namespace(['d', 'three.py'], in_place=True, rename_globals=rg)
-    with env.installed(args=args) as m:
+    # the real parse_args() builds the namespace from a real argument vector
+    import sys as real_sys
+    from vf.stubs import patched
+    argv = ['pyminify', 'd', 'three.py', '--in-place'] + (['--rename-globals'] if rg else [])
+    with patched(real_sys, 'argv', argv), env.installed() as m:
         m.main()
     for n in range(3):
         api = python_minifier.minify(src[n], filename=paths[n], rename_globals=rg, preserve_globals=[], preserve_locals=[],
